@@ -15,7 +15,15 @@
 (*   trip   one dx against every dy of the domain, every table entry that  *)
 (*          can carry the pair (one glyph of one point per vector)         *)
 (*   font   abstract glyph set x metrics x encoder choices (one or two     *)
-(*          fonts in the file)                                             *)
+(*          fonts in the file).  Besides the product over the glyph pool   *)
+(*          there are the SIZE BOUNDARY families (section "boundaries"):   *)
+(*          bm    every glyph count 0..130 (bboxBitmap length rule)        *)
+(*          ng    glyph counts around the 32-glyph bitmap word, explicit   *)
+(*                bounding boxes in the first / last word / nowhere        *)
+(*          u16b  contour sizes and instruction lengths at the 255UInt16   *)
+(*                code boundaries 252/253, 505/506, 508/509, 761/762       *)
+(*          nc    glyphs of 127..300 contours (nContour / nPoints streams) *)
+(*          loca  rebuilt glyf of 131068 / 131070 / 131072 bytes           *)
 (*   dir    table directory (+ collection directory) byte strings          *)
 (***************************************************************************)
 EXTENDS Woff2, Json, TLC, SequencesExt
@@ -117,10 +125,10 @@ MkFont(recs, nhm, lsbpol, advBase) ==
                  ELSE (IF lsbpol \in {"tail", "none"} THEN xmin[g] - 3 ELSE xmin[g])]]
 
 LsbPols(hf) == CASE hf = 0 -> {"none"} [] hf = 1 -> {"match", "tail"} [] hf = 2 -> {"match", "head"} [] hf = 3 -> {"match"}
-FontCase(p) ==
-  LET s == p[2]  gt == p[3]  hf == p[4]  nhm == p[5]  lp == p[6]  bun == Bundles[p[7]]  coll == CollModes[p[8]]
-      recs == [k \in 1 .. Len(s) |-> Pool[s[k]]]
-      F1 == MkFont(recs, nhm, lp, 500)
+\* one font case: `id` names it, `recs` is the glyph sequence, `bun` an encoder bundle, `zlen` the
+\* length of the arbitrary-tag table ZZZZ of the concrete font (UIntBase128 boundary lengths)
+FontCaseOf(id, recs, gt, hf, nhm, lp, bun, coll, zlen) ==
+  LET F1 == MkFont(recs, nhm, lp, 500)
       fonts == CASE coll = "single" -> <<F1>>
                  [] coll = "same"   -> <<F1, F1>>
                  [] coll = "hm"     -> <<F1, MkFont(recs, nhm, lp, 600)>>
@@ -149,14 +157,108 @@ FontCase(p) ==
                   xglyf |-> tbl, xhmtx |-> hb]
       R == [k \in 1 .. Len(fonts) |-> X(fonts[k])]
   IN [ok |-> \A k \in DOMAIN R : R[k].ok,
-      json |-> [kind |-> "font", id |-> <<s, p[3], p[4], p[5], p[6], p[7], p[8]>>,
+      json |-> [kind |-> "font", id |-> id,
                 fonts |-> fonts,          \* input = expected reconstruction (identity checked above)
                 diff |-> <<>>,            \* no untransformed table may differ from its original
                 ch |-> [glyf |-> gt, hmtx |-> hf, trip |-> bun.trip, u16 |-> bun.u16, bbox |-> bun.bbox,
                         order |-> bun.order, tags |-> bun.tags, overlap |-> bun.overlap, loca |-> bun.loca,
-                        chunk |-> bun.chunk, coll |-> coll],
+                        chunk |-> bun.chunk, coll |-> coll, zlen |-> zlen],
                 xglyf |-> [k \in DOMAIN R |-> IF gt = 0 THEN R[k].xglyf ELSE <<>>],
                 xhmtx |-> [k \in DOMAIN R |-> R[k].xhmtx]]]
+
+FontCase(p) ==
+  LET s == p[2] IN
+  FontCaseOf(<<s, p[3], p[4], p[5], p[6], p[7], p[8]>>, [k \in 1 .. Len(s) |-> Pool[s[k]]],
+             p[3], p[4], p[5], p[6], Bundles[p[7]], CollModes[p[8]], 13)
+
+---------------------------------------------------------------------------
+\* boundaries: families of font cases that sit on the size-dependent edges of the decoder.  Every
+\* parameter that is not the subject of a family is picked by a deterministic mix, so that encoder
+\* bundles, hmtx flags, numberOfHMetrics, collection modes and ZZZZ lengths rotate through the family.
+LsbPolSeq(hf) == CASE hf = 0 -> <<"none">> [] hf = 1 -> <<"match", "tail">> [] hf = 2 -> <<"match", "head">> [] hf = 3 -> <<"match">>
+ZLens == <<13, 127, 128, 16383, 16384>>           \* UIntBase128 of 1, 1, 2, 2, 3 bytes
+Pick(seq, k) == seq[1 + (k % Len(seq))]
+
+\* tiny glyphs: one point, tight box / one point, a box that is NOT the tight one (needs an explicit
+\* bounding box) / a composite (always explicit)
+GDot(j)    == [kind |-> "simple", ends |-> <<0>>, pts |-> <<P(j, 2 * j + 1, 1)>>, instr |-> <<>>,
+               bbox |-> <<j, 2 * j + 1, j, 2 * j + 1>>, comps |-> <<>>]
+GDotB(j)   == [GDot(j) EXCEPT !.bbox = <<j - 2, 2 * j, j + 1, 2 * j + 3>>]
+GCompAt(j) == [GComp EXCEPT !.bbox = <<j, -j, 300 + j, 400>>]
+
+\* glyph numbers (1-based) that carry an explicit bounding box
+NgPlaces == <<"none", "first", "last", "both", "edge">>
+NgPos(n, place) == CASE place = "none"  -> {}
+                     [] place = "first" -> {IF n >= 3 THEN 3 ELSE 1}
+                     [] place = "last"  -> {n}
+                     [] place = "both"  -> {1, n}
+                     [] place = "edge"  -> {g \in {32, 33, 64, 65} : g <= n}   \* last bit of a word, first bit of the next
+NgRecs(n, place, kind, filler) ==
+  [g \in 1 .. n |-> IF g \in NgPos(n, place) THEN (IF kind = "comp" THEN GCompAt(g) ELSE GDotB(g))
+                    ELSE IF filler = "empty" THEN GEmpty ELSE GDot(g)]
+NgCounts == IF Quick THEN {31, 32, 33, 63, 64, 65} ELSE {1, 2, 31, 32, 33, 63, 64, 65, 95, 96, 97, 127, 128, 129, 160}
+\* <<"ng", n, place number, kind, filler, bbox policy>>
+NgParams == {<<"ng", n, pl, kd, fi, bb>> : n \in NgCounts, pl \in 1 .. Len(NgPlaces), kd \in {"comp", "simple"},
+                                           fi \in {"empty", "dot"}, bb \in {"needed", "all"}}
+NgInit == \E q \in NgParams : (q[3] = 1 => q[4] = "comp") /\ c = q          \* no carrier: the kind does not matter
+NgCase(p) ==
+  LET n == p[2]  place == NgPlaces[p[3]]
+      mix == n + 3 * p[3] + (IF p[4] = "comp" THEN 0 ELSE 5) + (IF p[5] = "empty" THEN 0 ELSE 7)
+      bu == IF p[6] = "needed" THEN Pick(<<1, 3>>, mix) ELSE Pick(<<2, 4>>, mix)
+      hf == mix % 4
+      nhm0 == Pick(<<1, n - 1, n, 32, 31, 33>>, mix \div 2)
+      nhm == IF nhm0 < 1 THEN 1 ELSE IF nhm0 > n THEN n ELSE nhm0
+  IN FontCaseOf(<<"ng", n, place, p[4], p[5], p[6]>>, NgRecs(n, place, p[4], p[5]), 0, hf, nhm,
+                Pick(LsbPolSeq(hf), mix \div 4), Bundles[bu], Pick(CollModes, mix \div 3), Pick(ZLens, mix))
+
+\* every glyph count of 0 .. 130 once, the only explicit bounding box on the LAST glyph; the case also
+\* carries the lemma about the length rule itself (n = 0 has no font: lemma only)
+BmCase(n) ==
+  LET recs == NgRecs(n, "last", IF n % 2 = 0 THEN "comp" ELSE "simple", IF n % 3 = 0 THEN "dot" ELSE "empty")
+      fc == FontCaseOf(<<"bm", n>>, recs, 0, 0, n, "none", Bundles[1], "single", 13)
+  IN IF n = 0 THEN [ok |-> BitmapLenRule(0), json |-> [kind |-> "lemma", id |-> <<"bm", 0>>]]
+     ELSE [ok |-> BitmapLenRule(n) /\ fc.ok, json |-> fc.json]
+
+\* glyph with the given contour sizes and instruction length
+RECURSIVE SumTo(_, _)
+SumTo(cnts, k) == IF k = 0 THEN 0 ELSE cnts[k] + SumTo(cnts, k - 1)
+GContours(cnts, ilen) ==
+  LET np == SumTo(cnts, Len(cnts))
+      pts == [j \in 1 .. np |-> P(2 * j, (j % 7) * 3 - 9, IF j % 5 = 0 THEN 0 ELSE 1)]
+  IN [kind |-> "simple", ends |-> [k \in 1 .. Len(cnts) |-> SumTo(cnts, k) - 1], pts |-> pts,
+      instr |-> [k \in 1 .. ilen |-> (7 * k) % 256], bbox |-> BBoxOf(pts), comps |-> <<>>]
+GCompIL(ilen) == [GCompI EXCEPT !.instr = [k \in 1 .. ilen |-> (11 * k) % 256]]
+
+\* 255UInt16 code boundaries: last one-byte value / first 255-coded, last value only 255 can carry /
+\* first 254-coded, last 255-coded / first 254-only, last 254-coded / first word-only
+U16Bounds == <<252, 253, 505, 506, 508, 509, 761, 762>>
+U16bCase(k, bu) ==
+  LET B(j) == Pick(U16Bounds, k - 1 + j)
+      recs == <<GEmpty, GContours(<<B(0), B(3)>>, B(5)), GCompIL(B(6))>>
+      hf == k % 4
+  \* (the triplet policy is not the subject here: "ref" needs no candidate search per point)
+  IN FontCaseOf(<<"u16b", B(0), B(3), B(5), B(6), bu>>, recs, 0, hf, 2 + (k % 2), Pick(LsbPolSeq(hf), k \div 4),
+                [Bundles[bu] EXCEPT !.trip = "ref"], "single", Pick(ZLens, k))
+U16bCases == {<<"u16b", k, bu>> : k \in 1 .. Len(U16Bounds), bu \in 1 .. 3}     \* u16 policies short, word, alt
+
+\* many contours: the int16 nContour value needs its high byte, the nPoints stream has one entry per contour
+NcCounts == IF Quick THEN {127, 128, 255, 256, 300} ELSE {1, 2, 127, 128, 129, 255, 256, 257, 300, 511, 512, 1000}
+NcCase(k) ==
+  LET recs == <<GContours([j \in 1 .. k |-> 1 + (IF j = k THEN 2 ELSE 0)], k % 3), GCompAt(1), GEmpty>>
+      hf == k % 4
+  IN FontCaseOf(<<"nc", k>>, recs, 0, hf, 1 + (k % 3), Pick(LsbPolSeq(hf), k), [Bundles[1 + (k % 4)] EXCEPT !.trip = "ref"],
+                Pick(CollModes, k), 13)
+
+\* loca short/long switch.  allsorts writes a rebuilt simple glyph as 12 + 2 * contours + instructions
+\* + 5 * points bytes (padded to even): a triangle with i instruction bytes is 29 + i bytes, so two of
+\* them with i = 65505 and 65505 + d give a rebuilt glyf of 131068 + d bytes.  2 * 65535 = 131070 is the
+\* last size 16-bit loca offsets can express; the source font (compact coordinates) stays below it.
+GInstr(i) == [GTri EXCEPT !.instr = [k \in 1 .. i |-> (13 * k) % 256]]
+LocaCases == IF Quick THEN {<<"loca", 2, 0, 1>>, <<"loca", 4, 0, 3>>, <<"loca", 4, 1, 1>>}
+             ELSE {<<"loca", d, l, b>> : d \in {0, 2, 4}, l \in {0, 1}, b \in {1, 3}}
+LocaCase(d, l, b) ==
+  FontCaseOf(<<"loca", 131068 + d, l, b>>, <<GInstr(65505), GInstr(65505 + d), GEmpty>>, 0, 1, 2, "match",
+             [Bundles[b] EXCEPT !.loca = l], "single", 13)
 
 ---------------------------------------------------------------------------
 \* dir: entry templates <<tag, explicit, ver, has transformLength>>
@@ -220,10 +322,31 @@ DirBigCase(cmode) ==
       json |-> [kind |-> "dir", id |-> <<<<0>>, 300, cmode>>, n |-> n, dir |-> bytes, coll |-> cb,
                 exp |-> [entries |-> [k \in 1 .. n |-> <<d.entries[k].tag, d.entries[k].off, d.entries[k].orig, d.entries[k].tlen>>],
                          fonts |-> [f \in 1 .. Len(dc.fonts) |-> dc.fonts[f].idx]]]]
+\* collection directories whose counts sit on the 255UInt16 code boundaries: eight fonts of
+\* 252 .. 762 tables over a directory of 800 entries, and 252 / 253 / 506 fonts of one table each
+DirCollCase(id, n, cf, cmode) ==
+  LET es == [k \in 1 .. n |-> [tag |-> <<65 + ((k \div 26) % 26), 97 + (k % 26), 48 + (k \div 676), 49>>, explicit |-> TRUE, ver |-> 0,
+                               orig |-> DirLens[1 + (k % Len(DirLens))] % 70000, tlen |-> -1]]
+      bytes == Flat([k \in 1 .. n |-> EncDirEntry(es[k])])
+      d == DecDirectory(bytes, n)
+      cb == EncCollection(<<0, 1, 0, 0>>, cf, <<"short", "word", "alt">>[cmode])
+      dc == DecCollection(cb)
+  IN [ok |-> d.ok /\ d.used = Len(bytes) /\ dc.ok /\ dc.used = Len(cb) /\ dc.fonts = cf,
+      json |-> [kind |-> "dir", id |-> id, n |-> n, dir |-> bytes, coll |-> cb,
+                exp |-> [entries |-> [k \in 1 .. n |-> <<d.entries[k].tag, d.entries[k].off, d.entries[k].orig, d.entries[k].tlen>>],
+                         fonts |-> [f \in 1 .. Len(dc.fonts) |-> dc.fonts[f].idx]]]]
+DirTablesCase(cmode) ==
+  DirCollCase(<<<<1>>, 800, cmode>>, 800,
+              [f \in 1 .. Len(U16Bounds) |-> [flavor |-> TrueTypeFlavor, idx |-> [k \in 1 .. U16Bounds[f] |-> k - 1 + f]]], cmode)
+DirFontsCase(nf, cmode) ==
+  DirCollCase(<<<<2>>, nf, cmode>>, 5,
+              [f \in 1 .. nf |-> [flavor |-> TrueTypeFlavor, idx |-> <<f % 5>>]], cmode)
 DirCases ==
   {<<"dir", ts, salt, cm>> : ts \in UNION {SeqsOf(1 .. Len(DirTemplates), n) : n \in 1 .. (IF Quick THEN 2 ELSE 3)},
                              salt \in 0 .. (IF Quick THEN 1 ELSE 2), cm \in 0 .. 3}
   \cup {<<"dirbig", cm>> : cm \in 1 .. 3}
+  \cup {<<"dirtables", cm>> : cm \in 1 .. 3}
+  \cup {<<"dirfonts", nf, cm>> : nf \in {252, 253, 506}, cm \in 1 .. 3}
 
 ---------------------------------------------------------------------------
 CaseResult(p) ==
@@ -233,6 +356,13 @@ CaseResult(p) ==
     [] p[1] = "font"   -> FontCase(p)
     [] p[1] = "dir"    -> DirCase(p[2], p[3], p[4])
     [] p[1] = "dirbig" -> DirBigCase(p[2])
+    [] p[1] = "dirtables" -> DirTablesCase(p[2])
+    [] p[1] = "dirfonts"  -> DirFontsCase(p[2], p[3])
+    [] p[1] = "ng"     -> NgCase(p)
+    [] p[1] = "bm"     -> BmCase(p[2])
+    [] p[1] = "u16b"   -> U16bCase(p[2], p[3])
+    [] p[1] = "nc"     -> NcCase(p[2])
+    [] p[1] = "loca"   -> LocaCase(p[2], p[3], p[4])
 
 \* glyph sequences up to MaxLen; up to FullLen every bundle x collection mode, beyond that one of
 \* each chosen by a mix of the other parameters; beyond ThinLen also only one hmtx flag value
@@ -259,6 +389,11 @@ Init ==
      \/ c \in {<<"u255", b>> : b \in 0 .. 255}
      \/ c \in TripCases
      \/ FontInit
+     \/ NgInit
+     \/ c \in {<<"bm", n>> : n \in 0 .. 130}
+     \/ c \in U16bCases
+     \/ c \in {<<"nc", k>> : k \in NcCounts}
+     \/ c \in LocaCases
      \/ c \in DirCases
 
 Next == ~done /\ done' = TRUE /\ c' = c
